@@ -386,6 +386,7 @@ func analysePkg(repo, dir, short string, structs []string, out *lockTable) error
 		w.walkFunc(fd, newCtx())
 	}
 	pa.sharedLocals()
+	pa.handovers()
 	return nil
 }
 
@@ -2100,6 +2101,37 @@ func (pa *pkgAn) sharedLocalsOf(fd *ast.FuncDecl) {
 			emit(v, locOf(v), id.Pos(), kind)
 		}
 	}
+	// borrowed objects: a PARAMETER that refers to a message (any / proto.Message / *pkg.Msg) belongs to the
+	// caller, who may write the object again as soon as the function has returned.  When a goroutine started
+	// here captures the parameter, every use inside that goroutine is an access of the object ("<var>.*",
+	// taken as a write: what the goroutine does with it is not followed), and the function's return is the
+	// owner's next write: ordered only if the function waits for the goroutine (WaitGroup) before it returns.
+	params := map[types.Object]string{}
+	if fd.Type.Params != nil {
+		for _, f := range fd.Type.Params.List {
+			for _, nm := range f.Names {
+				if o := pa.info.Defs[nm]; o != nil {
+					params[o] = typeString(f.Type)
+				}
+			}
+		}
+	}
+	for _, v := range vars {
+		ts, isParam := params[v]
+		if !isParam || !borrowedMessageType(ts) {
+			continue
+		}
+		n := 0
+		for _, id := range uses[v] {
+			if threadOf(id.Pos()) != nil {
+				emit(v, locOf(v)+".*", id.Pos(), "W")
+				n++
+			}
+		}
+		if n > 0 {
+			emit(v, locOf(v)+".*", fd.Body.Rbrace, "W") // the owner, after the return
+		}
+	}
 	// the channel objects held by captured variables: close writes, send reads
 	ast.Inspect(fd, func(n ast.Node) bool {
 		switch x := n.(type) {
@@ -2120,6 +2152,325 @@ func (pa *pkgAn) sharedLocalsOf(fd *ast.FuncDecl) {
 		}
 		return true
 	})
+}
+
+// ---- message objects handed over on channel fields ----
+//
+// A value sent on a channel FIELD of a table struct whose element type can hold a reference is an object
+// that crosses to another goroutine: location "<field>.msg".  The rule of the table is "a pointer sent on a
+// channel is either a fresh copy or never touched again by the sender":
+//   send of a FRESH value (proto.Clone(..), a composite literal / new / make, a call of a same-package copier -
+//     every return gives a fresh value, `return m` only after the failed assertion that m is a message -, a
+//     local defined from such a value and not mentioned after the send)
+//        -> row W, construction phase: the copy is made before the send publishes it (virtual channel pub);
+//   send of anything else (a parameter, a field, a received value, an unknown call result): the sender's side
+//     keeps a reference, its owner may write the object at any later time
+//        -> row W, not construction, BPO "ret:owner(<loc>)" (all the keepers' accesses are the one owner's);
+//   every use of a variable bound to a value RECEIVED from the field (v := <-X.c / v, ok := <-X.c /
+//     for v := range X.c, also as select cases) and every `<-X.c` used as an operand
+//        -> row R, not construction (first use of the published object).
+// A copy row and a receive row are ordered by publication; a keeper row and a receive row by nothing.
+func (pa *pkgAn) handovers() {
+	var fds []*ast.FuncDecl
+	for _, fd := range pa.funcs {
+		fds = append(fds, fd)
+	}
+	sort.Slice(fds, func(i, j int) bool { return fds[i].Pos() < fds[j].Pos() })
+	for _, fd := range fds {
+		pa.handoversOf(fd)
+	}
+}
+
+func ownerChan(loc string) string { return "ret:owner(" + loc + ")" }
+
+// carriesRef: values of the channel's element type can hold a reference to memory the sender can still reach
+func (pa *pkgAn) carriesRef(ch ast.Expr) bool {
+	tv, ok := pa.info.Types[ch]
+	if !ok || tv.Type == nil {
+		return true
+	}
+	c, ok := tv.Type.Underlying().(*types.Chan)
+	if !ok {
+		return true
+	}
+	switch t := c.Elem().Underlying().(type) {
+	case *types.Basic:
+		return t.Kind() == types.Invalid || t.Kind() == types.UnsafePointer
+	case *types.Struct:
+		return t.NumFields() > 0
+	}
+	return true
+}
+
+func (pa *pkgAn) handoversOf(fd *ast.FuncDecl) {
+	file, _ := pa.rel(fd.Pos())
+	fn := file + ":" + fnName(fd)
+	emit := func(loc, kind string, pos token.Pos, init bool, before []beforeTag) {
+		f, line := pa.rel(pos)
+		row := siteRow{Loc: loc, Kind: kind, Init: init, Before: before, Fn: fn, Pos: fmt.Sprintf("%s:%d", f, line)}
+		k := fmt.Sprint(row)
+		if pa.seen[k] {
+			return
+		}
+		pa.seen[k] = true
+		pa.out.Sites = append(pa.out.Sites, row)
+	}
+	// loops around each node (for the "not mentioned after the send" rule)
+	var loops []ast.Node
+	var stack []ast.Node
+	loopOf := map[ast.Node]ast.Node{}
+	ast.Inspect(fd.Body, func(n ast.Node) bool {
+		if n == nil {
+			top := stack[len(stack)-1]
+			stack = stack[:len(stack)-1]
+			if len(loops) > 0 && loops[len(loops)-1] == top {
+				loops = loops[:len(loops)-1]
+			}
+			return true
+		}
+		stack = append(stack, n)
+		if _, ok := n.(*ast.SendStmt); ok && len(loops) > 0 {
+			loopOf[n] = loops[0] // the outermost loop
+		}
+		switch n.(type) {
+		case *ast.ForStmt, *ast.RangeStmt:
+			loops = append(loops, n)
+		}
+		return true
+	})
+	bound := map[types.Object]string{} // variable bound to a received value -> location
+	bind := func(lhs ast.Expr, loc string) {
+		if id, ok := lhs.(*ast.Ident); ok && id.Name != "_" {
+			if o := pa.info.Defs[id]; o != nil {
+				bound[o] = loc
+			} else if o := pa.info.Uses[id]; o != nil {
+				bound[o] = loc
+			}
+		}
+	}
+	recvLoc := func(e ast.Expr) string {
+		if u, ok := e.(*ast.UnaryExpr); ok && u.Op == token.ARROW {
+			if fi := pa.fieldOf(u.X); fi != nil && !fi.closeOnly && pa.carriesRef(u.X) {
+				return fi.key + ".msg"
+			}
+		}
+		return ""
+	}
+	direct := map[ast.Expr]bool{} // receive expressions whose value is bound or dropped
+	ast.Inspect(fd.Body, func(n ast.Node) bool {
+		switch x := n.(type) {
+		case *ast.SendStmt:
+			fi := pa.fieldOf(x.Chan)
+			if fi == nil || !pa.carriesRef(x.Chan) {
+				return true
+			}
+			loc := fi.key + ".msg"
+			if pa.freshValue(fd, x.Value, x, loopOf[x]) {
+				emit(loc, "W", x.Arrow, true, nil)
+			} else {
+				emit(loc, "W", x.Arrow, false, []beforeTag{{Kind: "PO", Chan: ownerChan(loc)}})
+				f, line := pa.rel(x.Arrow)
+				pa.addCloser(closerRow{Chan: ownerChan(loc), Fn: fn, Pos: fmt.Sprintf("%s:%d", f, line)})
+			}
+		case *ast.AssignStmt:
+			if len(x.Rhs) == 1 {
+				if loc := recvLoc(x.Rhs[0]); loc != "" {
+					direct[x.Rhs[0]] = true
+					bind(x.Lhs[0], loc)
+				}
+			}
+		case *ast.ExprStmt:
+			if recvLoc(x.X) != "" {
+				direct[x.X] = true
+			}
+		case *ast.RangeStmt:
+			if fi := pa.fieldOf(x.X); fi != nil && !fi.closeOnly && x.Key != nil {
+				if _, isChan := pa.info.Types[x.X].Type.Underlying().(*types.Chan); isChan && pa.carriesRef(x.X) {
+					bind(x.Key, fi.key+".msg")
+				}
+			}
+		}
+		return true
+	})
+	ast.Inspect(fd.Body, func(n ast.Node) bool {
+		switch x := n.(type) {
+		case *ast.Ident:
+			if o := pa.info.Uses[x]; o != nil {
+				if loc, ok := bound[o]; ok {
+					emit(loc, "R", x.Pos(), false, nil)
+				}
+			}
+		case *ast.UnaryExpr:
+			if loc := recvLoc(x); loc != "" && !direct[x] {
+				emit(loc, "R", x.Pos(), false, nil)
+			}
+		}
+		return true
+	})
+}
+
+// freshValue: the value sent by st is an object nobody but the receiver will reach once it is sent
+func (pa *pkgAn) freshValue(fd *ast.FuncDecl, e ast.Expr, st *ast.SendStmt, loop ast.Node) bool {
+	if pa.freshExpr(e, 0) {
+		return true
+	}
+	id, ok := e.(*ast.Ident)
+	if !ok {
+		return false
+	}
+	v, _ := pa.info.Uses[id].(*types.Var)
+	if v == nil || v.IsField() || !within(v.Pos(), fd.Body) {
+		return false // a parameter, a package variable
+	}
+	if loop != nil && !within(v.Pos(), loop) {
+		return false // declared outside a loop around the send: a later iteration sends it again
+	}
+	defs, freshDefs, later := 0, 0, false
+	ast.Inspect(fd.Body, func(n ast.Node) bool {
+		switch x := n.(type) {
+		case *ast.AssignStmt:
+			for i, l := range x.Lhs {
+				if li, ok := l.(*ast.Ident); ok && (pa.info.Defs[li] == v || pa.info.Uses[li] == v) {
+					defs++
+					if len(x.Lhs) == len(x.Rhs) && pa.freshExpr(x.Rhs[i], 0) {
+						freshDefs++
+					}
+				}
+			}
+		case *ast.ValueSpec:
+			for i, li := range x.Names {
+				if pa.info.Defs[li] == v {
+					defs++
+					if len(x.Names) == len(x.Values) && pa.freshExpr(x.Values[i], 0) {
+						freshDefs++
+					}
+				}
+			}
+		case *ast.Ident:
+			if pa.info.Uses[x] == v && x.Pos() > st.End() {
+				later = true
+			}
+		}
+		return true
+	})
+	return defs > 0 && defs == freshDefs && !later
+}
+
+func (pa *pkgAn) freshExpr(e ast.Expr, depth int) bool {
+	switch x := e.(type) {
+	case *ast.ParenExpr:
+		return pa.freshExpr(x.X, depth)
+	case *ast.BasicLit:
+		return true
+	case *ast.Ident:
+		return x.Name == "nil" || x.Name == "true" || x.Name == "false"
+	case *ast.CompositeLit:
+		return true
+	case *ast.UnaryExpr:
+		if x.Op == token.AND {
+			_, ok := x.X.(*ast.CompositeLit)
+			return ok
+		}
+	case *ast.CallExpr:
+		if id, ok := x.Fun.(*ast.Ident); ok && (id.Name == "new" || id.Name == "make") && pa.info.Uses[id] != nil && pa.info.Uses[id].Pkg() == nil {
+			return true
+		}
+		if se, ok := x.Fun.(*ast.SelectorExpr); ok {
+			if p, ok := se.X.(*ast.Ident); ok {
+				if _, isPkg := pa.info.Uses[p].(*types.PkgName); isPkg && p.Name == "proto" && se.Sel.Name == "Clone" {
+					return true
+				}
+			}
+		}
+		if fn := pa.callee(x); fn != nil && depth < 3 {
+			return pa.copier(pa.funcs[fn], depth+1)
+		}
+	}
+	return false
+}
+
+// copier: every return of fd gives a fresh value; `return p` (a parameter) is accepted only as the last
+// statement, after an `if q, ok := p.(proto.Message); ok { return <fresh> }` - what is not a message is
+// returned as it is (the streams of pkg/wrap carry messages only)
+func (pa *pkgAn) copier(fd *ast.FuncDecl, depth int) bool {
+	if fd == nil || fd.Body == nil || fd.Type.Results == nil || len(fd.Type.Results.List) != 1 {
+		return false
+	}
+	params := map[types.Object]bool{}
+	for _, f := range fd.Type.Params.List {
+		for _, id := range f.Names {
+			params[pa.info.Defs[id]] = true
+		}
+	}
+	asserted := map[types.Object]bool{} // parameters whose being a message has been tested, with a fresh return on success
+	ok := true
+	nret := 0
+	last := fd.Body.List[len(fd.Body.List)-1]
+	for _, s := range fd.Body.List {
+		ifs, isIf := s.(*ast.IfStmt)
+		if !isIf || ifs.Else != nil {
+			continue
+		}
+		as, isAs := ifs.Init.(*ast.AssignStmt)
+		if !isAs || len(as.Lhs) != 2 || len(as.Rhs) != 1 {
+			continue
+		}
+		ta, isTA := as.Rhs[0].(*ast.TypeAssertExpr)
+		okID, isID := ifs.Cond.(*ast.Ident)
+		if !isTA || !isID || typeString(ta.Type) != "proto.Message" {
+			continue
+		}
+		if l1, isL := as.Lhs[1].(*ast.Ident); !isL || pa.info.Defs[l1] == nil || pa.info.Uses[okID] != pa.info.Defs[l1] {
+			continue
+		}
+		pid, isP := ta.X.(*ast.Ident)
+		if !isP || !params[pa.info.Uses[pid]] || len(ifs.Body.List) == 0 {
+			continue
+		}
+		if r, isR := ifs.Body.List[len(ifs.Body.List)-1].(*ast.ReturnStmt); isR && len(r.Results) == 1 && pa.freshExpr(r.Results[0], depth) {
+			asserted[pa.info.Uses[pid]] = true
+		}
+	}
+	ast.Inspect(fd.Body, func(n ast.Node) bool {
+		if _, isLit := n.(*ast.FuncLit); isLit {
+			return false
+		}
+		r, isR := n.(*ast.ReturnStmt)
+		if !isR {
+			return true
+		}
+		nret++
+		if len(r.Results) != 1 {
+			ok = false
+			return true
+		}
+		if pa.freshExpr(r.Results[0], depth) {
+			return true
+		}
+		if id, isID := r.Results[0].(*ast.Ident); isID && ast.Stmt(r) == last && asserted[pa.info.Uses[id]] {
+			return true
+		}
+		ok = false
+		return true
+	})
+	return ok && nret > 0
+}
+
+// borrowedMessageType: the (syntactic) type of a parameter through which the caller lends a message
+func borrowedMessageType(ts string) bool {
+	switch ts {
+	case "any", "interface", "proto.Message", "protoreflect.ProtoMessage":
+		return true
+	}
+	// a pointer to a type of another package, unless that package's objects are made for concurrent use
+	if strings.HasPrefix(ts, "*") && strings.Contains(ts, ".") {
+		switch strings.TrimPrefix(ts[:strings.Index(ts, ".")], "*") {
+		case "sync", "atomic", "context", "grpc", "zap", "log", "slog", "time", "testing":
+			return false
+		}
+		return true
+	}
+	return false
 }
 
 func (pa *pkgAn) addCloser(row closerRow) {
